@@ -6,6 +6,7 @@ Require ExtrOcamlBasic.
 From RPCX Require Select.RoundRobin Select.SWRR.
 From RPCX Require Wire.Bytes Wire.Header Wire.Codec Wire.CodecSpec.
 From RPCX Require Select.Simple Select.Jump Select.DoubleJump.
+From RPCX Require XClient.Breaker.
 Extraction Language OCaml.
 Extraction "model.ml"
   RoundRobin.rr_new RoundRobin.rr_run
@@ -17,4 +18,5 @@ Extraction "model.ml"
   Codec.encode_pooled Codec.encode_stream Codec.encode_len Codec.decode Codec.decode_all Codec.fresh_obj
   CodecSpec.meta_lookup
   Simple.rnd_select Simple.create_geo Simple.geo_select
-  Jump.jump Jump.hash_string DoubleJump.ch_new DoubleJump.ch_update DoubleJump.ch_select.
+  Jump.jump Jump.hash_string DoubleJump.ch_new DoubleJump.ch_update DoubleJump.ch_select
+  Breaker.b_run Breaker.b_init Breaker.xb_run.
